@@ -73,11 +73,12 @@ func checkStdout(r *core.Run, sig, what string, c *CLICase, data []byte, want []
 	}
 }
 
-// runCLI: for every DSL program with <= rawOps ops x 2 inputs: raw stdout of
-// `walkdv | try tobytes` equals the concatenation of the harness' byte forms, and of
-// the decode of a sliced binary equals the slice; for programs with <= fmtOps ops:
-// -o bits_format=F for every F.
-func runCLI(r *core.Run, rawOps, fmtOps int) bool {
+// runCLI: for every DSL program with <= rawOps ops on input 0 (<= sliceOps ops: both
+// inputs): raw stdout of `walkdv | try tobytes` equals the concatenation of the
+// harness' byte forms; for programs with <= sliceOps ops the raw output of the root of
+// a decode of a byte/bit sliced binary equals the slice; for programs with <= fmtOps
+// ops: -o bits_format=F for every F.
+func runCLI(r *core.Run, rawOps, sliceOps, fmtOps int) bool {
 	w, err := NewWalker(r, C05Driver)
 	if err != nil {
 		panic(err)
@@ -95,7 +96,11 @@ func runCLI(r *core.Run, rawOps, fmtOps int) bool {
 		}
 		ps := p.String()
 		r.Case(idx, "cli "+ps)
+		nops := countOps(p)
 		for ii, in := range Inputs {
+			if ii > 0 && nops > sliceOps {
+				continue // second input: programs with <= sliceOps ops
+			}
 			c := TreeCase{Kind: "dsl", Prog: ps, Input: hex.EncodeToString(in)}
 			t, _ := BuildDSL(c)
 			w.EvalTrees([]*Tree{t}, false, 0)
@@ -105,15 +110,17 @@ func runCLI(r *core.Run, rawOps, fmtOps int) bool {
 			}
 			cc := &CLICase{Args: []string{"-d", "vdsl", "-o", progOpt(ps), walkDef + "walkdv | try tobytes", "in.bin"}, Input: c.Input, Expect: hex.EncodeToString(want)}
 			checkStdout(r, "cli:raw-stdout:all-values", c.String(), cc, in, want)
-			if ii == 0 {
-				cc := &CLICase{Args: []string{"-d", "bytes", "--arg", "p", ps, `tobytes[1:] | decode("vdsl"; {prog: $p}) | tobytes`, "in.bin"}, Input: c.Input, Expect: hex.EncodeToString(in[1:])}
+			if ii == 0 && nops <= sliceOps {
+				cc := &CLICase{Args: []string{"-d", "bytes", "tobytes", "in.bin"}, Input: c.Input, Expect: c.Input}
+				checkStdout(r, "cli:raw-stdout:bytes-format", c.String(), cc, in, in)
+				cc = &CLICase{Args: []string{"-d", "bytes", "--arg", "p", ps, `tobytes[1:] | decode("vdsl"; {prog: $p}) | tobytes`, "in.bin"}, Input: c.Input, Expect: hex.EncodeToString(in[1:])}
 				checkStdout(r, "cli:raw-stdout:root-of-sliced-decode", c.String(), cc, in, in[1:])
 				cc = &CLICase{Args: []string{"-d", "bytes", "--arg", "p", ps, `tobits[3:] | decode("vdsl"; {prog: $p}) | tobits`, "in.bin"}, Input: c.Input}
 				want := BitBufFromBytes(in).Extract(3, int64(len(in))*8-3, 0).B
 				cc.Expect = hex.EncodeToString(want)
 				checkStdout(r, "cli:raw-stdout:root-of-bit-sliced-decode", c.String(), cc, in, want)
 			}
-			if countOps(p) <= fmtOps {
+			if nops <= fmtOps {
 				cliFormats(r, t, in)
 			}
 		}
@@ -261,10 +268,6 @@ func corpusCLI(r *core.Run, t *Tree) {
 	}
 	c.Args = []string{"-d", t.Case.Format, expr, "in.bin"}
 	checkStdout(r, "cli:corpus:raw-stdout:"+t.Case.Format, t.Case.String(), c, t.Data, want)
-	if t.Case.Format == "probe" {
-		c2 := &CLICase{File: t.Case.File, ExpectIs: "file", Args: []string{"-d", "bytes", "tobytes", "in.bin"}}
-		checkStdout(r, "cli:corpus:raw-stdout:bytes", t.Case.String(), c2, t.Data, t.Data)
-	}
 }
 
 func replayCLI(r *core.Run, c *CLICase) bool {
